@@ -300,11 +300,11 @@ func init() {
 	reg(&CheckDef{
 		ID: "C13",
 		Jobs: func(tier string, meta map[string]int) []Job {
-			return []Job{job("fit", "H13")}
+			return []Job{job("fit", "H13", "defkind", 0), job("fit", "H13", "defkind", 1), job("fit", "H13", "defkind", 2)}
 		},
 		MustReach: []string{"C13.def.replaces-its-slot", "C13.def.other-slots-untouched", "C13.data.undefined-slot-is-error", "C13.data.consumed-by-selected-slot", "C13.data.routed-by-selected-slot", "C13.data.definitions-never-written"},
 		Bounds: map[string]interface{}{
-			"quick":    "one record (all 256 header bytes, arbitrary record bytes) through the real decodeFileData loop from a state where all 16 slots hold pairwise distinguishable definitions (different message, record length 2..17, alternating byte order) except at most one nil slot (17 choices); definition records carry one fixed single-field body (with/without one developer field)",
+			"quick":    "one record (all 256 header bytes, arbitrary record bytes) through the real decodeFileData loop from a state where all 16 slots hold pairwise distinguishable definitions (different message, record length 2..17, alternating byte order) except at most one nil slot (17 choices); definition records carry one of three bodies (with/without one developer field): a different message, the slot's own layout with the opposite byte order, or the slot's definition verbatim",
 			"thorough": "same",
 		},
 		Outside: []string{"arbitrary interleavings follow by induction on the one-record step (slot contents only change by replacement; other slots pointer-identical) — paper argument",
@@ -388,7 +388,7 @@ func encJobs(tier string, meta map[string]int) []Job {
 }
 
 func init() {
-	encBounds := "one message (or two, for the union-definition case) per File; per instance one struct field, one adjacent pair, or every field set to arbitrary non-invalid values (integers over their full width, valid coordinates, whole-second times in [epoch+1, epoch+2^32-2], two-character ASCII strings, arrays of 1-2 elements); instances: 17 file types x every hosted message (table read from the tree) x every field x both byte orders x headers with and without CRC"
+	encBounds := "one message (or two, for the union-definition case) per File; per instance one struct field or one adjacent pair set to arbitrary non-invalid values (integers over their full width, valid coordinates, whole-second times in [epoch+1, epoch+2^32-2], ASCII strings of up to two characters that fit, arrays of 1-2 elements), or every field set at once to fixed values (structure of the full definition); instances: 17 file types x every hosted message (table read from the tree) x every field x both byte orders x headers with and without CRC"
 	reg(&CheckDef{
 		ID:        "C05",
 		Meta:      "fit.Hmeta",
@@ -542,7 +542,7 @@ func init() {
 				job("fit", "H07a", "ti", 3, "gmn", 206, "mode", mode), job("fit", "H07a", "ti", 3, "gmn", 207, "mode", mode))
 			return js
 		},
-		MustReach: []string{"C07.encode-accepts-decoded", "C07.output-passes-checkintegrity", "C07.output-decodes", "C07.second-encode", "C07.fixpoint", "C07.counts", "roundtrip"},
+		MustReach: []string{"C07.values.scalar", "C07.values.array-up-to-profile-length", "C07.values.string-up-to-profile-length", "C07.encode-accepts-decoded", "C07.output-passes-checkintegrity", "C07.output-decodes", "C07.second-encode", "C07.fixpoint", "C07.counts", "roundtrip"},
 		Bounds: map[string]interface{}{
 			"quick":    "one message produced by the real record parser from any accepted single-field definition of a string or array field (every hosted message, both byte orders, arbitrary data) stored in a File as Decode stores it; strings: sizes 1-3 fully symbolic and sizes L-1, L, L+1 around the profile length L with an ASCII prefix and three arbitrary final bytes; arrays: up to 4 elements, the profile length, one more, and 255 bytes; then Encode, CheckIntegrity, Decode, Encode, Decode",
 			"thorough": "as quick for every field (scalars included) and every hosting file type",
@@ -555,7 +555,7 @@ func init() {
 func kindSeqs(n int) []int {
 	total := 1
 	for i := 0; i < n; i++ {
-		total *= 6
+		total *= 7 // vNumKinds in harness/fit/stream.go
 	}
 	var r []int
 	for c := 0; c < total; c++ {
@@ -565,7 +565,7 @@ func kindSeqs(n int) []int {
 }
 
 func init() {
-	streamModel := "streams of the harness's FIT stream model: an activity file (12- or 14-byte header) with a file_id record, five definitions (record little-endian, unknown message with arbitrary unknown number, record big-endian with an arbitrary unlisted field, record with a developer field, lap) and n data records of any of 6 kinds (record, unknown message, record with unlisted field, developer-field record, compressed-timestamp record, lap) in every order, all field bytes arbitrary"
+	streamModel := "streams of the harness's FIT stream model: an activity file (12- or 14-byte header) with a file_id record, five definitions (record little-endian, unknown message with arbitrary unknown number, record big-endian with an arbitrary unlisted field, record with a developer field, lap) and n data records of any of 7 kinds (record, unknown message, record with unlisted field, developer-field record, compressed-timestamp record, lap, activity with timestamp and local timestamp) in every order, all field bytes arbitrary"
 	reg(&CheckDef{
 		ID: "C10",
 		Jobs: func(tier string, meta map[string]int) []Job {
@@ -665,13 +665,16 @@ func init() {
 			for _, k := range kindSeqs(n) {
 				js = append(js, job("fit", "H08a", "n", n, "kinds", k))
 			}
+			for _, k := range kindSeqs(n) {
+				js = append(js, job("fit", "H08d", "n", n, "kinds", k))
+			}
 			js = append(js, job("fit", "H08b"), job("fit", "H08c"))
 			return js
 		},
-		MustReach:      []string{"C08.frame.no-state-survives-a-call", "C08.frame.accumulators-are-per-call", "C08.history.decode-independent-of-history", "C08.encode.identical-bytes-for-identical-files", "C08.encode.output-decodes"},
+		MustReach:      []string{"C08.frame.no-state-survives-a-call", "C08.frame.accumulators-are-per-call", "C08.history.decode-independent-of-history", "C08.encode.identical-bytes-for-identical-files", "C08.encode.output-decodes", "C08.sequence.decode-independent-of-history", "C08.sequence.encode-independent-of-history"},
 		NoNativeReplay: map[string]bool{"C08.frame.accumulators-are-per-call": true, "C08.frame.no-state-survives-a-call": true},
 		Bounds: map[string]interface{}{
-			"quick":    "shared-write frame: Decode (with both counting options), DecodeChained, CheckIntegrity, DecodeHeader, DecodeHeaderAndFileID and Encode on every model stream with n = 2 records plus a stream with the accumulated record sources; history independence: one record with arbitrary valid accumulated sources decoded from an arbitrary state of the three package-level accumulators (any history's effect is some value of them) versus the fresh state; Encode determinism: two records with different fields under every map iteration order",
+			"quick":    "shared-write frame: Decode (with both counting options), DecodeChained, CheckIntegrity, DecodeHeader, DecodeHeaderAndFileID and Encode on every model stream with n = 2 records plus a stream with the accumulated record sources; call sequences: Decode(B), then Decode/Encode/CheckIntegrity/DecodeChained on a stream A with two activity messages (arbitrary timestamps and local timestamps), then Decode(B) again, for every model stream B with n = 2, results and re-encoded bytes compared; history independence: one record with arbitrary valid accumulated sources decoded from an arbitrary state of the three package-level accumulators (any history's effect is some value of them) versus the fresh state; Encode determinism: two records with different fields under every map iteration order",
 			"thorough": "as quick with n = 3",
 		},
 		Outside: []string{"'equal to what a fresh process returns' is taken as 'equal to the run from the interpreted initial state of the package'", "json.go's buffer pool is not on any decode/encode path (no write to it is recorded) and is not claimed",
